@@ -15,6 +15,7 @@ import Driver.C06
 import Driver.C08
 import Driver.C11
 import Driver.C18
+import Driver.Gen
 
 open Driver
 
@@ -34,7 +35,8 @@ def handlers : List (List String → Option String) := [
   Driver.C06.handle,
   Driver.C08.handle,
   Driver.C11.handle,
-  Driver.C18.handle
+  Driver.C18.handle,
+  Driver.Gen.handle
 ]
 
 def dispatch (toks : List String) : String :=
